@@ -29,7 +29,8 @@ def run(P, rep, tier):
         'section\'s previous "stats" (idempotence); R5 "lines changed" is the sum of the two stored counts and container '
         'totals are taken from what the children\'s metadata report; R6 diff bytes declared to be in encoding E are not '
         'handed to the ASCII-literal hunk parser undecoded.')
-    rep.undecided = 'count exactness (+/- lines inside hunks); delegated to C14 which itself does not decide hunk geometry'
+    rep.undecided = ('count exactness (+/- lines inside hunks) for arbitrary diffs: the totals are those of the hunk parser, whose rules (C14, incl. the '
+                     'bounded comparison with a reference semantics, C14-R7) are imported here as C13-I14; hunks longer than that bound are not machine-checked')
     rep.trusted_base += ['dict update/get/in semantics as modelled', 'summaries of utils/text.py and the hunk parser']
     D = DomRoles(P)
     CONTENT_SLOT[0] = D.content_slot()
